@@ -162,7 +162,12 @@ def compare_lines(s, t, label, upto=None):
     seg = t.out_by_line(len(lines))
     preds = []
     for i, raw in enumerate(lines):
-        p = m.line(raw)
+        try:
+            p = m.line(raw)
+        except ref.Unknown:
+            if upto is None or i < upto:
+                raise
+            p = ref.LinePred()       # outside what the statements define (e.g. a READ after a rejected buffer WRITE): not judged
         preds.append(p)
         if upto is not None and i >= upto:
             continue
@@ -184,7 +189,10 @@ def run(case, W):
             return Result(violation=("crash", str(t.crash)))
         if t.reason != "quiescent":
             return Result(violation=("no-quiescence", t.reason))
-    v, preds = compare_lines(sa, ta, "run A")
+    try:
+        v, preds = compare_lines(sa, ta, "run A")
+    except ref.Unknown:
+        return Result(skipped=True, labels=["unknown-domain"])
     if v:
         return Result(violation=v, runs=1)
     # the unsolicited TEST event after the last line
@@ -223,7 +231,10 @@ def run(case, W):
         return Result(violation=("crash", str(tb.crash)), runs=2)
     if tb.reason != "quiescent":
         return Result(violation=("no-quiescence", tb.reason), runs=2)
-    v, predb = compare_lines(sb, tb, "run B", upto=1)
+    try:
+        v, predb = compare_lines(sb, tb, "run B", upto=1)
+    except ref.Unknown:
+        return Result(skipped=True, labels=["unknown-domain"], runs=2)
     if v:
         return Result(violation=v, runs=2)
     lines_b = ref.split_lines(sb["input"])[0]
